@@ -37,7 +37,7 @@ def run(ctx: Any, prog: Program) -> None:
     ctx.rule('C13.Z1', 'every mutating method is dominated by the writable-mode guard', floor=4)
     ctx.rule('C13.Z2', 'directory reader and writer agree on formats, entry field order, sentinels and nesting', floor=14)
     ctx.rule('C13.Z3', 'read/verify/write use the same storage for each placement (dir tail = footer_data, numbered file otherwise)', floor=5)
-    ctx.rule('C13.Z4', 'all name lookups normalise through _get_file_parts', floor=4)
+    ctx.rule('C13.Z4', 'all name lookups normalise through _get_file_parts', floor=5)
     ctx.rule('C13.Z5', 'the stored checksum covers the full data; verify chains preload and archive part', floor=3)
     ctx.rule('C13.Z6', 'preload length fits the 16-bit directory field', floor=1)
 
@@ -239,6 +239,21 @@ def run(ctx: Any, prog: Program) -> None:
         uses = any(isinstance(c, ast.Call) and dotted(c.func) == '_get_file_parts' for c in walk_no_nested(fn))
         raw = [n for n in walk_no_nested(fn) if isinstance(n, ast.Subscript) and dotted(n.value) == 'self._fileinfo' and dotted(n.slice) in ('item', 'filename')]
         ctx.check('C13.Z4', uses and not raw, vpk, fn, f'VPK.{name} must obtain (path, name, ext) from _get_file_parts and never index the table with the raw argument', func=f'VPK.{name}', text=f'{name} normalises')
+    # the three spellings must give one decomposition: the 3-tuple form names the extension explicitly (the part after the LAST
+    # dot, which is also how the directory tree groups files), so the string and 2-tuple forms have to split at the last dot too
+    gfp = vpk.func('_get_file_parts')
+    splits = [c for c in walk_no_nested(gfp) if isinstance(c, ast.Call) and isinstance(c.func, ast.Attribute) and c.func.attr in ('rsplit', 'split', 'partition', 'rpartition')
+              and dotted(c.func.value) == 'filename' and c.args and isinstance(c.args[0], ast.Constant) and c.args[0].value == '.']
+    splitext = [c for c in walk_no_nested(gfp) if isinstance(c, ast.Call) and dotted(c.func) == 'os.path.splitext']
+    if len(splits) + len(splitext) != 1:
+        raise AnalysisError('_get_file_parts: the extension split was not found')
+    if splits:
+        c = splits[0]
+        last = c.func.attr == 'rpartition' or (c.func.attr == 'rsplit' and len(c.args) == 2 and isinstance(c.args[1], ast.Constant) and c.args[1].value == 1)
+        ctx.check('C13.Z4', last, vpk, c, f'`{ast.unparse(c)}` does not split at the last dot: "crate.dx90.vtx" decomposes differently from the explicit 3-tuple ("crate.dx90", "vtx"), so the forms address different entries',
+                  func='_get_file_parts', text='extension split at the last dot')
+    else:
+        ctx.check('C13.Z4', True, vpk, splitext[0], 'os.path.splitext splits at the last dot', func='_get_file_parts', text='extension split at the last dot')
     # ---- Z5 ------------------------------------------------------------------------------------------------
     w = fm['write']
     ok = any(isinstance(n, ast.Assign) and ast.unparse(n.value) == 'checksum(data)' for n in walk_no_nested(w)) and 'self.crc = new_checksum' in ast.unparse(w)
@@ -262,5 +277,7 @@ MUTANTS = [
     {'id': 'missing_level_terminator', 'file': 'vpk.py', 'find': "                    file.write(b'\\x00')\n                file.write(b'\\x00')\n            file.write(b'\\x00')", 'replace': "                    file.write(b'\\x00')\n                file.write(b'\\x00')", 'expect': 'C13.Z2'},
     {'id': 'tail_written_to_dir_file', 'file': 'vpk.py', 'find': "            if arch_index is None:\n                self.offset = len(self.vpk.footer_data)", 'replace': "            if False:\n                self.offset = len(self.vpk.footer_data)", 'expect': 'C13.Z3'},
     {'id': 'contains_raw_lookup', 'file': 'vpk.py', 'find': "        path, filename, ext = _get_file_parts(item)\n\n        try:\n            return filename in self._fileinfo[ext][path]", 'replace': "        path, filename, ext = os.path.dirname(item), os.path.basename(item), ''\n\n        try:\n            return filename in self._fileinfo[ext][path]", 'expect': 'C13.Z4'},
+    {'id': 'ext_split_first_dot', 'file': 'vpk.py', 'find': "        filename, ext = filename.rsplit('.', 1)", 'replace': "        filename, ext = filename.split('.', 1)", 'expect': 'C13.Z4'},
+    {'id': 'ext_split_rpartition', 'file': 'vpk.py', 'find': "        filename, ext = filename.rsplit('.', 1)", 'replace': "        filename, _, ext = filename.rpartition('.')", 'expect': None, 'note': 'negative control: same split point'},
     {'id': 'crc_of_preload_only', 'file': 'vpk.py', 'find': "        new_checksum = checksum(data)\n", 'replace': "        new_checksum = checksum(data[:1024])\n", 'expect': 'C13.Z5'},
 ]
